@@ -5,6 +5,10 @@ use crate::runner::GenFn;
 pub fn profile(name: &str) -> Option<GenFn> {
     Some(match name {
         "mailbox" => genp::mailbox,
+        "lifecycle" => genp::lifecycle,
+        "handles" => genp::handles,
+        "backpressure" => genp::backpressure,
+        "owning" => genp::owning,
         _ => return None,
     })
 }
